@@ -11,7 +11,7 @@ function returns ReturnToSender carrying the caller's message, having written an
 send pass Message::Message(caller's message) to send_round_robin and propagate its error.
 Does NOT decide rotation as an observed history (argued: FIFO + R10.3 + R10.5) nor partial writes."""
 from ..sym import show, walk_expr
-from ..common import short, trait_impls, coroutine_of
+from ..common import short, trait_impls, coroutine_of, is_some_payload_of
 from .. import pathq
 from .c07 import socket_coroutine, wire_writes, msg_mutations, is_param_msg
 
@@ -43,7 +43,8 @@ def analyse_sender(f, rep, co, label, push_before_write_ok=False, param_pred=Non
             nw += 1
             looked = pathq.mentions_call(ev.args[0], lambda x: short(x[1]) == "get_async" and not x[1].endswith("}"))
             last_pop = [pe for pi, pe in pops if pi < i]
-            same = looked is not None and last_pop and any(y == last_pop[-1].result for y in walk_expr(looked[2][1]))
+            # the lookup key IS the id popped last (not something else chosen with its help)
+            same = looked is not None and last_pop and len(looked[2]) > 1 and is_some_payload_of(looked[2][1], last_pop[-1].result)
             rep.check(bool(same), "R10.1", "R10.1|%s|write-to-popped-peer" % label, "%s writes to the entry looked up with the id popped from the rotation" % label, co.loc(ev.bb))
             rep.check(short(ev.name) == "send" and "SinkExt" in ev.name, "R10.2", "R10.2|%s|send-and-flush" % label,
                       "%s writes with SinkExt::send (feed+flush awaited), found %s" % (label, ev.name), co.loc(ev.bb))
